@@ -44,3 +44,24 @@ package dns
 //@   assert at "c <- &Envelope{in.Answer, nil}@2" done: q.Id == in.Id && in.Rcode == 0 && ((axfr && n == 2) || n == 3)
 //@   assert at "c <- &Envelope{in.Answer, nil}@3" more: q.Id == in.Id && in.Rcode == 0 && n < 3 && !(axfr && n == 2)
 //@   loop * invariant 0 <= n && n < 3 && !(axfr && n == 2)
+
+// outgoing side: every envelope becomes one reply to the query (SetReply, AA set) that carries exactly the
+// envelope's records after nothing else; a write error ends the transfer and is returned; later envelopes are
+// signed in timers-only mode.  WriteMsg: a message with a TSIG stub is signed with the stored request MAC (which
+// it replaces), any other is packed as is; the octets written are the ones produced, and errors are returned.
+//@ func (*Transfer).Out [C15]
+//@   opt no-safety
+//@   requires t != nil && q != nil
+//@   callsite "SetReply" reply: arg1 == q && fresh(arg0)
+//@   callsite "WriteMsg" sent: arg0 == callarg("SetReply", 0) && arg0.Authoritative
+//@   stored at "r.Answer = append(r.Answer, x.RR...)" recs: len(value) == len(x.RR)
+//@   callsite "TsigTimersOnly" after: arg0 && called("WriteMsg") && callres("WriteMsg") == nil
+//@   assert at "return err" werr: err != nil && err == callres("WriteMsg")
+//@ func (*Transfer).WriteMsg [C15 C11]
+//@   opt no-safety
+//@   requires t != nil && m != nil
+//@   callsite "TsigGenerateWithProvider" signed: arg0 == m && arg1 == callres("tsigProvider") && arg2 == t.Conn.tsigRequestMAC && arg3 == t.tsigTimersOnly && callres("IsTsig") != nil && callres("tsigProvider") != nil
+//@   callsite "Pack" plain: arg0 == m && (callres("IsTsig") == nil || callres("tsigProvider") == nil)
+//@   callsite "Write" octets: same(arg1, out) && err == nil && (called("Pack") ? same(out, callres("Pack", 0)) : same(out, callres("TsigGenerateWithProvider", 0)))
+//@   stored at "out, t.tsigRequestMAC, err = TsigGenerateWithProvider(m, tp, t.tsigRequestMAC, t.tsigTimersOnly)" mac: value == callres("TsigGenerateWithProvider", 1)
+//@   exit err: !called("Write") ==> ret0 != nil
